@@ -109,3 +109,165 @@ Theorem C01_partial_L_exhaustive_complete :
 Proof. exact L_exhaustive_complete. Qed.
 Print Assumptions C01_partial_L_exhaustive_complete.
 
+
+Require Import LV.Base LV.VV LV.VVFacts LV.Path LV.PathSpec LV.PathTerm LV.PathDistinct LV.PathApi LV.Prog LV.Objects LV.Exec LV.Atomic LV.Ops LV.Check LV.PathExhaust LV.ExecFacts LV.ExecFacts2 LV.Ref LV.Outcome LV.Witness LV.DporFacts.
+
+(* The DPOR rule as a theorem (DporFacts.v): every race the dependence check detects is registered on the stack, hence its reversal is explored *)
+(* EXACT: what Schedule::backtrack does to an entry *)
+Theorem C01_partial_sched_backtrack_spec :
+  forall (s : Path.schedule) (tid : nat) (bd : option nat) (s' : Path.schedule),
+       sched_backtrack s tid bd = POk s' <->
+       s_ex s = true /\ opt_le_bound (s_pre s) bd = true /\ s' = bt_sched s tid bd.
+Proof. exact sched_backtrack_spec. Qed.
+Print Assumptions C01_partial_sched_backtrack_spec.
+
+(* EXACT: what Path::backtrack changes: only the nearest exploring Schedule entry at or below the point (and, with a bound, one conservative entry), only by Schedule::backtrack *)
+Theorem C01_partial_backtrack_spec :
+  forall (p : path) (point tid : nat) (p' : path),
+       backtrack p point tid = POk p' ->
+       exists r : option nat,
+         find_backtrack_point (branches p) point (S point) = POk r /\
+         match r with
+         | Some i =>
+             p' = set_branches p (branches p') /\
+             length (branches p') = length (branches p) /\
+             (exists s s' : Path.schedule,
+                nth_error (branches p) i = Some (ESched s) /\
+                sched_backtrack s tid (bound p) = POk s' /\
+                nth_error (branches p') i = Some (ESched s')) /\
+             (exists J : option nat,
+                (bound p = None -> J = None) /\
+                (forall k : nat,
+                 k <> i -> J <> Some k -> nth_error (branches p') k = nth_error (branches p) k) /\
+                (forall k : nat,
+                 J = Some k ->
+                 exists t t' : Path.schedule,
+                   nth_error (branches p) k = Some (ESched t) /\
+                   sched_backtrack t tid (bound p) = POk t' /\
+                   nth_error (branches p') k = Some (ESched t')))
+         | None => p' = p
+         end.
+Proof. exact backtrack_spec. Qed.
+Print Assumptions C01_partial_backtrack_spec.
+
+(* for every thread with a pending operation and every last dependent access that does not happen-before it: after the DPOR loop the thread is marked for exploration at the backtrack point (or, if it is disabled there, every thread is) *)
+Theorem C01_partial_dpor_loop_registers :
+  forall (objs : list object) (ths : list (nat * thread)) (p p' : path) 
+         (id : nat) (th : thread) (op : operation) (o : object) (accs : list access) 
+         (acc : access) (i : nat) (s : Path.schedule),
+       dpor_loop objs ths p = POk p' ->
+       In (id, th) ths ->
+       t_op th = Some op ->
+       nth_error objs (op_obj op) = Some o ->
+       last_dependent_accesses o (op_act op) = Some accs ->
+       In acc accs ->
+       access_hb acc (t_dpor th) = false ->
+       find_backtrack_point (branches p) (a_path_id acc) (S (a_path_id acc)) = POk (Some i) ->
+       nth_error (branches p) i = Some (ESched s) ->
+       at_bound s (bound p) = false ->
+       exists s' : Path.schedule,
+         nth_error (branches p') i = Some (ESched s') /\
+         sched_le s s' /\
+         match nth_error (s_threads s) id with
+         | Some t =>
+             if is_enabled t
+             then nth_error (s_threads s') id = Some (explore_t t)
+             else s_threads s' = map explore_t (s_threads s)
+         | None => True
+         end.
+Proof. exact dpor_loop_registers. Qed.
+Print Assumptions C01_partial_dpor_loop_registers.
+
+(* marks are never taken back within the loop *)
+Theorem C01_partial_dpor_loop_mono :
+  forall (objs : list object) (ths : list (nat * thread)) (p p' : path),
+       dpor_loop objs ths p = POk p' -> path_le p p'.
+Proof. exact dpor_loop_mono. Qed.
+Print Assumptions C01_partial_dpor_loop_mono.
+
+(* for the exploration of the concrete model without a bound: a race detected at any scheduling point of any iteration, with the racing thread runnable at the backtrack point, is followed by an iteration with the same decisions up to that point that schedules the racing thread there *)
+Theorem C01_partial_race_reversal_explored :
+  forall (fuel : nat) (prog : prog) (c : config) (k : nat) (ek : path) 
+         (objs : list object) (ths : list (nat * thread)) (p p' : path) 
+         (id : nat) (th : thread) (op : operation) (o : object) (accs : list access) 
+         (acc : access) (i : nat) (s : Path.schedule) (t : tstat),
+       let it := fun pa : path => e_path (fst (iteration fuel prog pa)) in
+       let n := S (BASE ^ cap (initial_path c)) in
+       preemption_bound c = None ->
+       nth_error (explore it n (initial_path c)) k = Some ek ->
+       dpor_loop objs ths p = POk p' ->
+       extends p' ek ->
+       In (id, th) ths ->
+       t_op th = Some op ->
+       nth_error objs (op_obj op) = Some o ->
+       last_dependent_accesses o (op_act op) = Some accs ->
+       In acc accs ->
+       access_hb acc (t_dpor th) = false ->
+       find_backtrack_point (branches p) (a_path_id acc) (S (a_path_id acc)) = POk (Some i) ->
+       nth_error (branches p) i = Some (ESched s) ->
+       nth_error (s_threads s) id = Some t ->
+       PathPreempt.runnable_status t = true ->
+       exists (j : nat) (ej : path),
+         nth_error (explore it n (initial_path c)) j = Some ej /\
+         firstn i (choices ej) = firstn i (choices ek) /\
+         nth_error (choices ej) i = Some (CThread (Some id)).
+Proof. exact race_reversal_explored. Qed.
+Print Assumptions C01_partial_race_reversal_explored.
+
+(* the same phrased on a state reached inside iteration k *)
+Theorem C01_partial_run_race_reversal_explored :
+  forall (fuel : nat) (prog : prog) (c : config) (k : nat) (pk : path) 
+         (f1 : nat) (e1 : exec) (me : nat) (tme : thread) (m : micro) (rest : list micro)
+         (es : exec) (curr : nat) (cur_th : thread) (p1 : path) (id : nat) 
+         (th : thread) (op : operation) (o : object) (accs : list access) 
+         (acc : access) (i : nat) (s : Path.schedule) (t : tstat),
+       let it := fun pa : path => e_path (fst (iteration fuel prog pa)) in
+       let n := S (BASE ^ cap (initial_path c)) in
+       preemption_bound c = None ->
+       nth_error (starts it n (initial_path c)) k = Some pk ->
+       run_reaches fuel (init_exec prog pk) (S f1) e1 ->
+       e_active e1 = Some me ->
+       nth_error (e_threads e1) me = Some tme ->
+       t_cont tme = m :: rest ->
+       exec_micro (upd_thread e1 me (fun t0 : thread => th_set_cont t0 rest)) me m =
+       fst (schedule es) ->
+       e_active es = Some curr ->
+       nth_error (e_threads es) curr = Some cur_th ->
+       dpor_loop (e_objects es) (index_list (e_threads es)) (e_path es) = POk p1 ->
+       nth_error (e_threads es) id = Some th ->
+       t_op th = Some op ->
+       nth_error (e_objects es) (op_obj op) = Some o ->
+       last_dependent_accesses o (op_act op) = Some accs ->
+       In acc accs ->
+       access_hb acc (t_dpor th) = false ->
+       find_backtrack_point (branches (e_path es)) (a_path_id acc) (S (a_path_id acc)) =
+       POk (Some i) ->
+       nth_error (branches (e_path es)) i = Some (ESched s) ->
+       nth_error (s_threads s) id = Some t ->
+       PathPreempt.runnable_status t = true ->
+       exists (j : nat) (ej : path),
+         nth_error (explore it n (initial_path c)) j = Some ej /\
+         firstn i (choices ej) = firstn i (choices (it pk)) /\
+         nth_error (choices ej) i = Some (CThread (Some id)).
+Proof. exact run_race_reversal_explored. Qed.
+Print Assumptions C01_partial_run_race_reversal_explored.
+
+(* observed (computed): when the racing thread is in state Yield at the backtrack point nothing is registered and the reversed order is never run: yield_now means `not before another thread has run` (loom's documented pruning; outside C01's primitives) *)
+Theorem C01_observed_yield_race_reversal_missed :
+  missing p_yield_rmw o_yield_rmw = true /\
+       length (recs_of p_yield_rmw) = 2 /\
+       option_map (fun r : iter_record => status_at (ir_end r) 1 1)
+         (nth_error (recs_of p_yield_rmw) 1) = Some (Some TYield) /\
+       option_map (fun r : iter_record => nth_error (choices (ir_end r)) 1)
+         (nth_error (recs_of p_yield_rmw) 1) = Some (Some (CThread (Some 0))) /\
+       forallb
+         (fun r : iter_record =>
+          forallb
+            (fun e : entry =>
+             match e with
+             | ESched s => negb (existsb is_pending (s_threads s))
+             | _ => true
+             end) (branches (ir_end r))) (skipn 1 (recs_of p_yield_rmw)) = true.
+Proof. exact yield_race_reversal_missed. Qed.
+Print Assumptions C01_observed_yield_race_reversal_missed.
+
